@@ -115,7 +115,7 @@ def run(tier, seed, replay):
     rep = vf.Report("C01", tier, seed)
     rep.rule = ("for every key x admissible alg x base token (harness-signed, signed by libjwt under OpenSSL, under GnuTLS) x pin route, every mutation "
                 "class is applied (all positions for short fields, sampled for RSA signatures; every single bit of EdDSA/ECDSA/HMAC "
-                "signatures) and every mutant is verified under both providers; distinct = distinct (key, alg, mutation class) tuples executed; a case is "
+                "signatures) and every mutant is verified under both providers; key-rotation histories; verify and generate with the k-th allocation request of the crypto library itself failing (OpenSSL CRYPTO_set_mem_functions, gnutls_malloc pointers), every k; distinct = distinct (key, alg, mutation class) tuples executed; a case is "
                 "non-trivial because every mutant still reaches jwt_checker_verify with a configured key")
     rep.assumptions = ["reference validity = OpenSSL EVP_DigestVerify / HMAC called directly on the harness' own key object; lenient "
                        "base64 decoding and PSS salt auto-detection make the check one-directional (accepted => valid)",
@@ -163,8 +163,56 @@ def run(tier, seed, replay):
                             rep.violation("accept-invalid:rotation:%s:%s:%s" % (PROVS[prov], key, step.split(":")[0]),
                                           "a token signed by a key the checker does not hold (any more) was accepted",
                                           dict(build=flav, provider=PROVS[prov], key=key, round=rnd, step=step, rc=rc))
+    # provider-internal allocation failure: OpenSSL's and GnuTLS's own allocators fail the k-th request during verify / generate
+    if not replay:
+        fb = vf.driver("d_c01f", "asan")
+        # verdicts only here; leaks and memory errors of the same executions are C06's business and are reported there
+        fouts, fcr = vf.run_shards(fb, ["--seed", seed, "--tier", tier], vf.NCPU, rd, tag="pf", timeout=3000,
+                                   env={"ASAN_OPTIONS": vf.SAN_ENV["ASAN_OPTIONS"].replace("detect_leaks=1", "detect_leaks=0")})
+        rep.crash_violations(fcr, prefix="provider-fault:")
+        for pth in fouts:
+            with open(pth, errors="replace") as fh:
+                for line in fh:
+                    if not line.startswith("["):
+                        continue
+                    try:
+                        ev = json.loads(line)
+                    except Exception:
+                        continue
+                    if ev[0] == "N":
+                        _, idx, prov, key, alg, tk, nall, rc0, inj, acc, rej = ev
+                        rep.evaluations += inj
+                        rep.count("provider_faults_injected.verify", inj)
+                        rep.count("provider_fault.valid_token_still_accepted" if tk == 0 else "provider_fault.invalid_token_rejected", acc if tk == 0 else rej)
+                        if nall:
+                            rep.distinct.add(("provider-fault", PROVS[prov], alg, tk))
+                    elif ev[0] == "M":
+                        _, idx, prov, key, alg, nall, inj, toks, nulls = ev
+                        rep.evaluations += inj
+                        rep.count("provider_faults_injected.sign", inj)
+                        rep.count("provider_fault.sign_returned_valid_token", toks)
+                        rep.count("provider_fault.sign_returned_null", nulls)
+                        if nall:
+                            rep.distinct.add(("provider-fault-sign", PROVS[prov], alg))
+                    elif ev[0] == "F":
+                        _, idx, prov, key, alg, tk, nall, mode, k, rc = ev
+                        TK = ["valid", "sig-bitflip", "sig-zero", "other-payload", "other-key"]
+                        if mode == 0 or mode == 9:
+                            rep.violation("provider-fault:fault-free-verdict-wrong:%s:%s:%s" % (PROVS[prov], alg, TK[tk]),
+                                          "without any fault (%s the fault series) the %s token is %s" % ("after" if mode == 9 else "before", TK[tk], "accepted" if rc == 0 else "rejected"),
+                                          dict(idx=idx, provider=PROVS[prov], key=key, alg=alg, token=TK[tk], rc=rc))
+                        else:
+                            rep.violation("provider-fault:accept-invalid:%s:%s:%s" % (PROVS[prov], alg, TK[tk]),
+                                          "with the provider's allocation #%d failing (%s) verify returned 0 for a token that is not validly signed" % (k, "only that one" if mode == 1 else "and all later ones"),
+                                          dict(idx=idx, provider=PROVS[prov], key=key, alg=alg, token=TK[tk], allocations_in_verify=nall, mode=mode, k=k))
+                    elif ev[0] == "G":
+                        _, idx, prov, key, alg, nall, mode, k, got, ok = ev[:10]
+                        rep.violation("provider-fault:bad-token:%s:%s" % (PROVS[prov], alg),
+                                      "with the provider's allocation #%d failing generate returned a token that is not validly signed (or differs for a deterministic algorithm)" % k,
+                                      dict(idx=idx, provider=PROVS[prov], key=key, alg=alg, allocations_in_generate=nall, mode=mode, k=k, ref_valid=ok, token=(ev[10] if len(ev) > 10 else None)))
     c = rep.counters
     if not replay:
+        vf.need(rep, c.get("provider_faults_injected.verify", 0) > 3000 and c.get("provider_faults_injected.sign", 0) > 1000, "provider fault injection did not run")
         vf.need(rep, c.get("rotation_verifies", 0) > 500, "key-rotation histories did not run")
         vf.need(rep, c.get("base_rejected", 0) == 0, "%d unmutated base tokens were rejected (positive control broken)" % c.get("base_rejected", 0))
         for prov in ("openssl", "gnutls"):
